@@ -566,47 +566,65 @@ theorem hello_suite_offered (mode : Mode) (e : Bool) (v w s : Nat) (suites comps
 
 -- the client's check of a ServerHello ----------------------------------------------------------------------------
 
-/-- the version test of the two clients, all values at once: GMSSL exactly 0x0101; TLS 1.0 and anything above
-    (values above 0x0303 are taken as TLS 1.2 by `mutualVersion`) -/
+/-- the version test of the two clients, all values at once: GMSSL exactly 0x0101; TLS 1.0 up to TLS 1.2, the
+    version the client offered — a value above 0x0303, which `mutualVersion` would clamp to TLS 1.2, is refused
+    (before the repair "fix: reject a ServerHello version above the client's offer" the right-hand side was
+    `0x0301 ≤ v`) -/
 theorem clientVersionOk_iff (gm : Bool) (v : Nat) :
-    clientVersionOk gm v = true ↔ (if gm = true then v = 0x0101 else 0x0301 ≤ v) := by
+    clientVersionOk gm v = true ↔ (if gm = true then v = 0x0101 else 0x0301 ≤ v ∧ v ≤ 0x0303) := by
   cases gm
   · simp only [clientVersionOk, Bool.false_eq_true, if_false]
     rcases ranges v with h | h | ⟨h1, h2⟩ | ⟨h1, h2⟩ | h
     · rw [mv_low v h]; simp; omega
     · subst h; decide
     · rw [mv_gap v h1 h2]; simp; omega
-    · rw [mv_tls v h1 h2]; simp
+    · rw [mv_tls v h1 h2]; simp; omega
     · rw [mv_high v h]; simp; omega
   · simp [clientVersionOk, versionGMSSL]
 
-/-- T1 `client_accepts_hello_iff`: a client goes on after a ServerHello exactly when the version is the one it
-    speaks, the suite is one it offered and knows, and the compression method is null. -/
+/-- the suite/version rule, spelled out: refused exactly for a TLS client, a version below 0x0303 and a suite
+    carrying the `suiteTLS12` flag -/
+theorem clientSuiteVersionOk_iff (gm : Bool) (v s : Nat) :
+    clientSuiteVersionOk gm v s = true ↔ (gm = true ∨ 0x0303 ≤ v ∨ tls12Only s = false) := by
+  unfold clientSuiteVersionOk versionTLS12
+  cases gm <;> cases h : tls12Only s <;> simp
+
+/-- T1 `client_accepts_hello_iff`: a client goes on after a ServerHello exactly when the version is one it
+    offered, the suite is one it offered and knows AND one that exists in that version, and the compression method
+    is null.  (Strengthened by the repairs of `pickTLSVersion` and `pickCipherSuite`: the upper bound on the
+    version and the suite/version clause are new.) -/
 theorem client_accepts_hello_iff (gm : Bool) (offered : List Nat) (v s comp : Nat) :
     clientHelloCheck gm offered v s comp = .accept ↔
-      (if gm = true then v = 0x0101 else 0x0301 ≤ v) ∧ s ∈ offered ∧ s ∈ knownSuites gm ∧ comp = 0 := by
-  rw [← clientVersionOk_iff]
+      (if gm = true then v = 0x0101 else 0x0301 ≤ v ∧ v ≤ 0x0303) ∧ s ∈ offered ∧ s ∈ knownSuites gm ∧
+      (gm = true ∨ 0x0303 ≤ v ∨ tls12Only s = false) ∧ comp = 0 := by
+  rw [← clientVersionOk_iff, ← clientSuiteVersionOk_iff]
   unfold clientHelloCheck
   by_cases h1 : clientVersionOk gm v = true
   · by_cases h2 : s ∈ offered
     · by_cases h3 : s ∈ knownSuites gm
-      · by_cases h4 : comp = 0 <;> simp [h1, h2, h3, h4]
+      · by_cases h5 : clientSuiteVersionOk gm v s = true
+        · by_cases h4 : comp = 0 <;> simp [h1, h2, h3, h4, h5]
+        · simp [h1, h2, h3, h5]
       · simp [h1, h2, h3]
     · simp [h1, h2]
   · simp [h1]
 
 /-- … and otherwise aborts at once, with the alert of the first failing test: protocol_version, then
-    handshake_failure ("server chose an unconfigured cipher suite"), then unexpected_message -/
+    handshake_failure ("server chose an unconfigured cipher suite", or a TLS 1.2-only suite for an earlier
+    version), then unexpected_message -/
 theorem client_rejects_hello (gm : Bool) (offered : List Nat) (v s comp : Nat) :
     (clientVersionOk gm v = false → clientHelloCheck gm offered v s comp = .reject .protocolVersion) ∧
-    (clientVersionOk gm v = true → (s ∉ offered ∨ s ∉ knownSuites gm) →
+    (clientVersionOk gm v = true → (s ∉ offered ∨ s ∉ knownSuites gm ∨ clientSuiteVersionOk gm v s = false) →
         clientHelloCheck gm offered v s comp = .reject .handshakeFailure) ∧
-    (clientVersionOk gm v = true → s ∈ offered → s ∈ knownSuites gm → comp ≠ 0 →
+    (clientVersionOk gm v = true → s ∈ offered → s ∈ knownSuites gm → clientSuiteVersionOk gm v s = true → comp ≠ 0 →
         clientHelloCheck gm offered v s comp = .reject .unexpectedMessage) := by
-  refine ⟨fun h => by simp [clientHelloCheck, h], fun h hs => ?_, fun h h1 h2 h3 => ?_⟩
+  refine ⟨fun h => by simp [clientHelloCheck, h], fun h hs => ?_, fun h h1 h2 h5 h3 => ?_⟩
   · unfold clientHelloCheck
-    rcases hs with hs | hs <;> simp [h, hs]
-  · simp [clientHelloCheck, h, h1, h2, h3]
+    rcases hs with hs | hs | hs
+    · simp [h, hs]
+    · simp [h, hs]
+    · simp [h, hs]
+  · simp [clientHelloCheck, h, h1, h2, h3, h5]
 
 /-- in particular a suite the client did not put into its own hello is never accepted, however well known -/
 theorem client_never_accepts_unoffered (gm : Bool) (configured : List Nat) (v s comp : Nat)
@@ -618,7 +636,10 @@ theorem client_never_accepts_unoffered (gm : Bool) (configured : List Nat) (v s 
 
 example : clientHelloCheck true (helloSuites true [0xe053]) 0x0101 0xe013 0 = .reject .handshakeFailure := by decide
 example : clientHelloCheck true (helloSuites true [0xe053]) 0x0101 0xe053 0 = .accept := by decide
-example : clientHelloCheck false (helloSuites false [0xc02f, 0x009c]) 0x0304 0x009c 0 = .accept := by decide
+example : clientHelloCheck false (helloSuites false [0xc02f, 0x009c]) 0x0303 0x009c 0 = .accept := by decide
+example : clientHelloCheck false (helloSuites false [0xc02f, 0x009c]) 0x0304 0x009c 0 = .reject .protocolVersion := by decide
+example : clientHelloCheck false (helloSuites false [0xc02f, 0x009c]) 0x0301 0x009c 0 = .reject .handshakeFailure := by decide
+example : clientHelloCheck false (helloSuites false [0xc02f, 0xc013]) 0x0301 0xc013 0 = .accept := by decide
 example : clientHelloCheck false (helloSuites false [0xc02f, 0xffff]) 0x0303 0xffff 0 = .reject .handshakeFailure := by decide
 
 end Props.C15
